@@ -207,6 +207,8 @@ def gen_world(i, R, rng, sw):
         cid = rng.choice(heavy)          # ~1000 nested function definitions: seconds per analysis
     d = rng.choice(["", "src", "lib/in/ner", "src/deep"])
     stem = "victim" if rng.random() < 0.85 else rng.choice(("vic tim", "victim\udce9", "vi\u0301ctim", "-victim", "files"))
+    if rng.random() < 0.06:
+        d, stem = rng.choice((("gen[", "v2]"), ("pages/[id]", "view"), ("a b", "c[d]e")))   # brackets, spaces
     target = (d + "/" if d else "") + stem + EXT[lang]
     if target in neighbours:
         target = "victim2" + EXT[lang]
